@@ -3,10 +3,12 @@ import PyramidModel.ConfigFootprints
 import PyramidModel.Gen.C08Phases
 /-! Driver for C08: one JSON case per line.
 in : {"actions":[{"id":n,"kind":"addView","disc":null|n,"args":[["viewSlot",k],…],"vorder":null|n},…],
-      "variants":[{"order":[ids in declaration order],"paths":[[n,…] include path per position]},…]}
+      "variants":[{"order":[ids in declaration order],"paths":[[n,…] include path per position]},…],
+      "pre":{"order":[…],"paths":[…]}   (optional: the actions of an EARLIER commit, executed first, same for all variants)}
 out: {"table_ok":bool,
       "phases":[phase of the kind in Gen/C08Phases.lean | null, per action],
       "footprints":[{"id","reads":[[fam,key]…],"writes":[[fam,key]…],"disc_reads":[fam…],"creates":[fam…]}],
+      "pre_exec":[ids the earlier commit executes, in order],
       "variants":[{"out":"ok"|"conflict"|"regress"|"fuel","exec":[ids in execution order]}],
       "equal":bool      — the final stores of all variants under the FREE semantics (`herbrand`; view registrations
                           with a known predicate order: `viewFp` = multiview merge + free term of the rest) agree on every slot,
@@ -91,13 +93,25 @@ def main : IO Unit := jsonDriver fun j => do
         let p : List (List Nat) ← getAs v "paths"
         pure (o, p)
     | _ => throw "bad variants"
+  let pre : List Nat × List (List Nat) ← match j.getObjVal? "pre" with
+    | .ok pj => do
+        let o : List Nat ← getAs pj "order"
+        let p : List (List Nat) ← getAs pj "paths"
+        pure (o, p)
+    | .error _ => pure ([], [])
   let env : Env := fpOf as
   let touched : List Slot := (as.flatMap fun a => (env a.id).reads ++ (env a.id).writes).eraseDups
+  let actsOf := fun (v : List Nat × List (List Nat)) =>
+    ((v.1.zip v.2).filterMap fun (i, p) =>
+      (findA as i).map fun a => (⟨i, Disc.ofOption a.disc, (phaseOfA a).getD 0, p⟩ : Act))
+  -- the earlier commit: its own `execute_actions`, on the empty registry
+  let preActs := actsOf pre
+  let preRun := Actions.run noKids (preActs.length + 1) preActs
+  let st0 : Store := runIds env preRun.2 (fun _ => [])
   let runV := fun (v : List Nat × List (List Nat)) =>
-    let acts : List Act := (v.1.zip v.2).filterMap fun (i, p) =>
-      (findA as i).map fun a => ⟨i, Disc.ofOption a.disc, (phaseOfA a).getD 0, p⟩
+    let acts : List Act := actsOf v
     let r := Actions.run noKids (acts.length + 1) acts
-    let st := runIds env r.2 (fun _ => [])
+    let st := runIds env r.2 st0
     (r.1, r.2, touched.map st)
   let results := vs.map runV
   let equal := match results with
@@ -121,6 +135,7 @@ def main : IO Unit := jsonDriver fun j => do
         ("writes", Json.arr ((env a.id).writes.map slotJson).toArray),
         ("disc_reads", toJson ((kfoot a.kind).discReads.map (·.name))),
         ("creates", toJson ((kcreates a.kind).map (·.name)))]).toArray),
+    ("pre_exec", toJson preRun.2),
     ("variants", Json.arr (results.map fun r => Json.mkObj [
         ("out", Json.str (outName r.1)), ("exec", toJson r.2.1)]).toArray),
     ("equal", toJson equal),
